@@ -637,7 +637,7 @@ class Engine(object):
             return v.val.n != 0
         if isinstance(v, PList):
             return self.truth(v.val) if isinstance(v.val, SSeq) else bool(v.val)
-        if isinstance(v, PDict):
+        if isinstance(v, (PDict, PSet)):
             return bool(v.val)
         if isinstance(v, PObj) and isinstance(v.cls, type):
             # Python asks __bool__, then __len__: a class that defines one of them decides the truth of its instances
@@ -1564,6 +1564,15 @@ class Engine(object):
 
     # ------------------------------------------------------------------ operators
     def binop(self, op, a, b, node=None):
+        if isinstance(a, PSet) and isinstance(b, PSet):
+            # sets of concrete hashable values only (symbolic members would need equality case splits)
+            if any(is_sym(x) for x in a.val) or any(is_sym(x) for x in b.val):
+                raise Unsupported('set operator over symbolic members')
+            import operator
+            fn = {'BitAnd': operator.and_, 'BitOr': operator.or_, 'Sub': operator.sub, 'BitXor': operator.xor}.get(type(op).__name__)
+            if fn is None:
+                raise Unsupported('set operator %s' % type(op).__name__)
+            return PSet(fn(a.val, b.val))
         if isinstance(a, PList) or isinstance(b, PList) or isinstance(a, SSeq) or isinstance(b, SSeq):
             if isinstance(op, ast.Add):
                 return self.seq_concat(a, b)
